@@ -12,7 +12,9 @@ Extracted:
   (e) the branch chain of getMockValueCFromNamedValue (type string -> enum constant, union member, getter, conversion),
       the enum order and the union members of MockValue_c;
   (f) the adaptor nodes and the C failure reporter / terminator, and MockFailureReporter::failTest for comparison;
-  (g) the shapes of the C++ getters (MockSupport::xReturnValue, MockCheckedActualCall::returnXValue, ...OrDefault).
+  (g) the shapes of the C++ getters (MockSupport::xReturnValue, MockCheckedActualCall::returnXValue, ...OrDefault);
+  (h) the statement order of MockSupport::actualCall(name) (previous call finished and deleted / enabled_ test / tracing_
+      test / callIsIgnored test / new checked call) and the body of createActualCall.
 A body that matches none of the known shapes is emitted as `.other "<text>"` (the proof obligation `wiring_correct`
 then fails and the differential harness looks for a concrete failing scenario); a structure that cannot be found at
 all raises TranslateError."""
@@ -412,6 +414,57 @@ def mock_call_desc(name, body):
         lean_str(name), lean_str(m.group(1)), "none" if m.group(2) is None else "some " + lean_str(m.group(2)))
 
 
+def top_statements(body):
+    """top-level statements of a normalised function body: split after `;` and after a closing `}` at depth 0"""
+    out, depth, par, cur = [], 0, 0, ""
+    for ch in body:
+        cur += ch
+        if ch == "(":
+            par += 1
+        elif ch == ")":
+            par -= 1
+        elif ch == "{":
+            depth += 1
+        elif ch == "}":
+            depth -= 1
+            if depth == 0 and par == 0:
+                out.append(cur.strip()); cur = ""
+        elif ch == ";" and depth == 0 and par == 0:
+            out.append(cur.strip()); cur = ""
+    if cur.strip():
+        out.append(cur.strip())
+    return out
+
+
+AC_STEPS = [
+    (r"^const SimpleString (\w+)=appendScopeToName\(functionName\);$", ".scopeName"),
+    (r"^if\(lastActualFunctionCall_\)\{lastActualFunctionCall_->checkExpectations\(\);delete lastActualFunctionCall_;"
+     r"lastActualFunctionCall_=NULLPTR;\}$", ".finishLast"),
+    (r"^if\(!enabled_\)(?:\{)?return MockIgnoredActualCall::instance\(\);(?:\})?$", ".retIgnoredIfDisabled"),
+    (r"^if\(tracing_\)(?:\{)?return MockActualCallTrace::instance\(\)\.withName\(\w+\);(?:\})?$", ".retTraceIfTracing"),
+    (r"^if\(callIsIgnored\(\w+\)\)(?:\{)?return MockIgnoredActualCall::instance\(\);(?:\})?$", ".retIgnoredIfCallIgnored"),
+    (r"^MockCheckedActualCall\* ?call=createActualCall\(\);$", ".createChecked"),
+    (r"^call->withName\(\w+\);$", ".withName"),
+    (r"^return \*call;$", ".retChecked"),
+]
+
+
+def actual_call_steps(sup):
+    """MockSupport::actualCall(const SimpleString&) as the list of its top-level statements, in source order: where the
+    previous actual call is finished and deleted relative to the `enabled_` / `tracing_` / callIsIgnored early returns"""
+    body = method_body(sup, r"MockActualCall\s*&\s*MockSupport::actualCall\s*\(\s*const\s+SimpleString\s*&\s*functionName\s*\)\s*\{")
+    steps = []
+    for st in top_statements(body):
+        for rx, con in AC_STEPS:
+            if re.match(rx, st):
+                steps.append(con); break
+        else:
+            steps.append(".other %s" % lean_str(st))
+    if not steps:
+        raise TranslateError("MockSupport::actualCall: empty body")
+    return steps
+
+
 def method_body(src, regex):
     return norm(function_body(src, regex))
 
@@ -499,6 +552,11 @@ def extract():
     t += "def listHeads : List (String × String × String) := [%s]\n\n" % ", ".join(list_heads(src))
     t += "/-- how mock_c / mock_scope_c select the MockSupport: scope argument and failure reporter argument -/\n"
     t += "def mockCalls : List MockCallDesc := [\n  %s]\n" % ",\n  ".join(mock_call_desc(n, defs[n][1]) for n in ("mock_c", "mock_scope_c"))
+    t += "/-- MockSupport::actualCall(name) (MockSupport.cpp): its top-level statements in source order -/\n"
+    t += "def actualCallSteps : List ACStep := [%s]\n" % ", ".join(actual_call_steps(sup))
+    t += "/-- MockSupport::createActualCall (what `.createChecked` does to lastActualFunctionCall_) -/\n"
+    t += "def createActualCallBody : String := %s\n" % lean_str(method_body(
+        sup, r"MockCheckedActualCall\s*\*\s*MockSupport::createActualCall\s*\(\s*\)\s*\{"))
     t += "/-- failTest of the C failure reporter and of the C++ MockFailureReporter -/\n"
     t += "def reporters : List ReporterDesc := [\n  %s]\n" % ",\n  ".join([
         reporter_desc("MockFailureReporterForInCOnlyCode", shapes["cReporterFailTest"]),
